@@ -168,6 +168,15 @@ def programs(ctx, model_ok, tmp):
                     # a statement that fails by itself: storing again under a resolved ref the datastore already holds
                     b.put({"keep": 1}, existing)
                     raise AssertionError("re-put of a stored resolved ref was accepted")
+                if how == "reingest":
+                    # likewise: ingesting a file for a dataset the datastore already holds must be refused harmlessly
+                    from lsst.daf.butler import FileDataset
+
+                    srcf = os.path.join(tmp, "reingest.yaml")
+                    with open(srcf, "w") as fh:
+                        fh.write("keep: 0\n")
+                    b.ingest(FileDataset(path=srcf, refs=[existing]), transfer="copy")
+                    raise AssertionError("re-ingest of a stored ref was accepted")
                 raise kinds[how]()
             elif st[0] == "B":
                 with b.transaction():
@@ -191,7 +200,7 @@ def programs(ctx, model_ok, tmp):
             break
         before = snapshot(b, root, [dt])
         failed = False
-        how = "boom" if n < len(corpus) else rng.choice(["boom", "boom", "base", "kbd", "exit", "reput"])
+        how = "boom" if n < len(corpus) else rng.choice(["boom", "boom", "base", "kbd", "exit", "reput", "reingest"])
         try:
             with b.transaction():
                 execute(body, base, how)
